@@ -1,0 +1,79 @@
+//go:build verif
+
+package actor
+
+// Contracts for property C21, consistent-hash half: a lookup is a function of the
+// key's hash and the ring alone and never changes the ring - so messages with equal
+// keys go to the same routee while membership is unchanged - and it is the textbook
+// successor rule: the member stored at the first ring point at or after the key's
+// hash, wrapping to the first point.
+
+//@ property C21
+
+//@ spec func ring_sorted(r *consistentHashRing) bool = forall i int, j int :: 0 <= i && i < j && j < len(r.keys) ==> r.keys[i] <= r.keys[j]
+
+//@ structural writers consistentHashRing.keys: newConsistentHashRing, (*consistentHashRing).set
+//@ structural writers consistentHashRing.ring: newConsistentHashRing, (*consistentHashRing).set
+
+//@ ghost local lk_h uint64
+//@ ghost local lk_r int
+
+//@ func (*consistentHashRing).lookup(r, key)
+//@   requires ring_sorted(r) && r.ring != nil
+//@   preserve consistentHashRing.keys, consistentHashRing.ring
+//@   at call 1 of invoke HashCode ghost lk_h = result
+//@   at call 1 of Search ghost lk_r = result
+//@   ensures empty-ring-routes-nowhere: len(r.keys) == 0 ==> result == ""
+//@   ensures routes-to-the-first-point-at-or-after-the-hash: len(r.keys) > 0 && lk_r < len(r.keys) ==> result == r.ring[r.keys[lk_r]] && r.keys[lk_r] >= lk_h && forall i int :: 0 <= i && i < lk_r ==> r.keys[i] < lk_h
+//@   ensures wraps-to-the-first-point-when-the-hash-is-past-the-last: len(r.keys) > 0 && lk_r >= len(r.keys) ==> result == r.ring[r.keys[0]] && forall i int :: 0 <= i && i < len(r.keys) ==> r.keys[i] < lk_h
+//@   ensures lookups-never-change-the-ring: r.keys == old(r.keys) && r.ring == old(r.ring) && old_objects_unchanged(r.keys) && old_objects_unchanged(r.ring)
+
+// rebuilding the ring: afterwards the points are sorted (what lookup relies on),
+// every point is mapped, and every point is mapped to one of the given members -
+// a lookup can only ever name a current routee
+//@ func (*consistentHashRing).hashVNode(r, member, index)
+//@   trusted "a Hasher is a pure function of its input (the hash.Hasher contract): computing a ring point changes nothing"
+//@   modifies nothing
+
+//@ func (*consistentHashRing).set(r, members)
+//@   requires r.virtualNodes >= 0
+//@   loop 1 invariant building: r.ring != nil && fresh(r.ring) && (cap(r.keys) == 0 || fresh(r.keys)) && r.virtualNodes == old(r.virtualNodes)
+//@   loop 1 invariant every-point-mapped: forall i int :: 0 <= i && i < len(r.keys) ==> has(r.ring, r.keys[i])
+//@   loop 1 invariant mapped-to-members-only: forall k uint64 :: has(r.ring, k) ==> exists(m, 0, len(members), r.ring[k] == old(members[m]))
+//@   loop 2 invariant building: r.ring != nil && fresh(r.ring) && (cap(r.keys) == 0 || fresh(r.keys)) && r.virtualNodes == old(r.virtualNodes) && 0 <= rangeindex + 1 && rangeindex + 1 < len(members) && member == old(members[rangeindex + 1])
+//@   loop 2 invariant every-point-mapped: forall i int :: 0 <= i && i < len(r.keys) ==> has(r.ring, r.keys[i])
+//@   loop 2 invariant mapped-to-members-only: forall k uint64 :: has(r.ring, k) ==> exists(m, 0, len(members), r.ring[k] == old(members[m]))
+//@   ensures points-sorted: ring_sorted(r)
+//@   ensures every-point-mapped: r.ring != nil && forall i int :: 0 <= i && i < len(r.keys) ==> has(r.ring, r.keys[i])
+//@   ensures mapped-to-members-only: forall k uint64 :: has(r.ring, k) ==> exists(m, 0, len(members), r.ring[k] == old(members[m]))
+
+// routing a keyed message: the ring is asked once, with the extracted key, and the
+// message goes to the routee registered under the id the ring named whenever that
+// routee is registered and running (otherwise to some live routee); the ring the
+// router holds stays sorted between rebuilds because only set writes its points
+//@ structural writers router.ring: (*router).rebuildHashRing
+//@ structural mapwriters router.routeesMap: newRouter, (*router).availableRoutees, (*router).handleRestartRoutee, (*router).handleStopRoutee, (*router).scaleDown, (*router).spawnRoutees
+
+//@ ghost local rc_id string
+//@ ghost local rc_asked int
+
+//@ func (*router).routeByConsistentHash(x, ctx, msg, routees)
+//@   requires x.ring != nil && ring_sorted(x.ring) && x.ring.ring != nil && x.routeesMap != nil && len(routees) > 0
+//@   preserve router.ring, router.routeesMap, consistentHashRing.keys, consistentHashRing.ring
+//@   ghost entry rc_asked = 0
+//@   at call 1 of (*consistentHashRing).lookup assert asks-the-routers-own-ring: arg0 == x.ring
+//@   at call 1 of (*consistentHashRing).lookup ghost rc_id = result
+//@   at call 1 of (*consistentHashRing).lookup ghost rc_asked = rc_asked + 1
+//@   at call 2 of (*ReceiveContext).Tell assert keyed-message-goes-to-the-routee-the-ring-named: rc_asked == 1 && has(x.routeesMap, rc_id) && arg1 == x.routeesMap[rc_id] && arg2 == msg
+//@   at call 1 of (*ReceiveContext).Tell assert keyless-message-goes-to-some-routee: rc_asked == 0 && arg2 == msg
+//@   at call 3 of (*ReceiveContext).Tell assert falls-back-to-some-routee-only-after-asking-the-ring: rc_asked == 1 && arg2 == msg
+
+// every membership change rebuilds the ring, and a rebuild leaves it in the state
+// routing relies on
+//@ func newConsistentHashRing(hasher, virtualNodes)
+//@   ensures a-usable-empty-ring: result != nil && fresh(result) && result.virtualNodes > 0 && result.ring != nil && len(result.keys) == 0
+
+//@ func (*router).rebuildHashRing(x)
+//@   requires x.ring != nil ==> x.ring.virtualNodes >= 0
+//@   ensures ring-built-for-consistent-hashing: x.routingStrategy == ConsistentHashRouting ==> x.ring != nil && ring_sorted(x.ring) && x.ring.ring != nil && x.ring.virtualNodes >= 0
+//@   ensures untouched-otherwise: x.routingStrategy != ConsistentHashRouting ==> x.ring == old(x.ring)
